@@ -69,6 +69,12 @@ pub struct Probes {
     pub c11: bool,
 }
 
+impl Probes {
+    pub fn any(&self) -> bool {
+        self.c02 || self.c03 || self.c04 || self.c08 || self.c14 || self.c11
+    }
+}
+
 pub const BASE: Scope = Scope {
     name: "base",
     n: 2,
